@@ -29,6 +29,7 @@ pub struct Profile {
     pub faults: bool,
     pub multi_world: bool,
     pub max_live: usize,
+    pub big: bool, // large populations: several growth steps, dozens to hundreds of entities
 }
 
 fn live_of(h: &H, wi: usize) -> Vec<Tok> {
@@ -86,6 +87,9 @@ fn run_body(h: &mut H, r: &mut Rng, prof: &Profile) {
         let mut c = [0usize; NARCH];
         for x in c.iter_mut() {
             *x = match r.below(6) { 0 => 0, 1 => 1, 2 => 2, 3 => 3, 4 => 4, _ => r.below(9) as usize };
+            if prof.big {
+                *x = [0usize, 5, 14, 30, 31, 62, 64, 126][r.below(8) as usize];
+            }
         }
         c
     };
@@ -101,7 +105,18 @@ fn run_body(h: &mut H, r: &mut Rng, prof: &Profile) {
         let wi = existing[r.below(existing.len() as u64) as usize];
         let c = r.below(100);
         payload += 1;
-        if c < 30 {
+        if prof.big && c < 30 {
+            // burst: grow one archetype through one or more reallocation steps
+            let ai = pick_arch(r);
+            let room = prof.max_live.saturating_sub(arch_len(h, wi, ai));
+            let n = (r.below(24) as usize + 1).min(room);
+            for k in 0..n {
+                let p: Vec<i64> = (0..32).map(|i| (payload + k as i64) * 100 + i).collect();
+                h.begin("create");
+                h.op_create(wi, ai, &p, r.below(4) as u8, r.chance(35));
+            }
+            payload += 30;
+        } else if c < 30 {
             let mut ai = pick_arch(r);
             if arch_len(h, wi, ai) >= prof.max_live { ai = pick_arch(r); }
             if arch_len(h, wi, ai) >= prof.max_live + 4 { continue; }
